@@ -255,7 +255,7 @@ func tkSequenceCase(ops []tkOp, nicks, chans []string, desc string) Case {
 }
 
 func c12(c *Ctx) {
-	nicks := []string{"", "me", "a", "b", "c"}
+	nicks := []string{"", "me", "a", "b", "c", "A", "Me"}
 	chans := []string{"", "#x", "#y", "#z"}
 	var cases []Case
 	nseq := c.Pick(1500, 20000)
